@@ -81,7 +81,12 @@ L5Types == << [name |-> "@p",  n |-> Obj(<<P(Kp, One)>>, <<>>)],
               [name |-> "@c2", n |-> Obj(<<P(Kb, One)>>, <<AllOf1("@c1")>>)],
               [name |-> "@ks", n |-> StrLit],
               [name |-> "@r",  n |-> Obj(<<SC("@ks", Ref(<<"@r">>, <<>>))>>, <<>>)],
-              [name |-> "@ro", n |-> Obj(<<SC("@ks", Ref(<<"@ro">>, <<OptR>>))>>, <<>>)] >>
+              [name |-> "@ro", n |-> Obj(<<SC("@ks", Ref(<<"@ro">>, <<OptR>>))>>, <<>>)],
+              \* a chain four types long, each link of another kind (property, array item, allOf): handed down one link at a time
+              [name |-> "@h1", n |-> Obj(<<P(Ka, Ref(<<"@h2">>, <<>>))>>, <<>>)],
+              [name |-> "@h2", n |-> Arr(<<Ref(<<"@h3">>, <<>>)>>, <<>>)],
+              [name |-> "@h3", n |-> Obj(<<P(Kb, One)>>, <<AllOf1("@h4")>>)],
+              [name |-> "@h4", n |-> Obj(<<P(Kd, One)>>, <<>>)] >>
 L5Env(names) == [types |-> SelectSeq(L5Types, LAMBDA t : t.name \in names), enums |-> <<>>]
 \* a case of this level: the root and the types it is given (a cycle among the given types is an error wherever it lies)
 L5Cases == { [root |-> Obj(<<P(Kx, Obj(<<P(Ka, One)>>, <<AllOf1("@p")>>)), P(Kr, Obj(<<P(Kb, One)>>, <<AllOf1("@p")>>))>>, <<>>), names |-> {"@p"}],
@@ -90,7 +95,9 @@ L5Cases == { [root |-> Obj(<<P(Kx, Obj(<<P(Ka, One)>>, <<AllOf1("@p")>>)), P(Kr,
              [root |-> Ref(<<"@c1">>, <<>>), names |-> {"@c1", "@c2"}],
              [root |-> Obj(<<P(Ka, Ref(<<"@r">>, <<>>))>>, <<>>), names |-> {"@ks", "@r"}],
              [root |-> Obj(<<P(Ka, Ref(<<"@ro">>, <<>>))>>, <<>>), names |-> {"@ks", "@ro"}],
-             [root |-> Obj(<<SC("@ks", Ref(<<"@b">>, <<>>)), P(Ka, Ref(<<"@e">>, <<OptR>>))>>, <<>>), names |-> {"@ks", "@p", "@b", "@e"}] }
+             [root |-> Obj(<<SC("@ks", Ref(<<"@b">>, <<>>)), P(Ka, Ref(<<"@e">>, <<OptR>>))>>, <<>>), names |-> {"@ks", "@p", "@b", "@e"}],
+             [root |-> Obj(<<P(Kx, Ref(<<"@h1">>, <<>>))>>, <<>>), names |-> {"@h1", "@h2", "@h3", "@h4"}],
+             [root |-> Arr(<<Ref(<<"@h2">>, <<>>)>>, <<>>), names |-> {"@h2", "@h3", "@h4"}] }
 Roots == IF Level = 5 THEN {c.root : c \in L5Cases} ELSE IF Level = 3 THEN DeepRoots ELSE IF Level = 4 THEN KeyRoots
          ELSE {Ref(<<"@t0">>, <<>>), Obj(<<P(Kr, Ref(<<"@t0">>, <<>>)), P(Kx, Ref(<<TName(NTypes - 1)>>, <<OptR>>))>>, <<>>)}
               \cup (IF Level = 1 /\ NTypes = 2 THEN {Ref(<<"@t0", "@t1">>, <<>>), Arr(<<Ref(<<"@t1", "@t0">>, <<>>)>>, <<>>)} ELSE {})
